@@ -88,17 +88,26 @@ OPS = ["ADD", "DEL", "DEL_BLOCK", "DEL_NOBLOCK", "ACTIVE", "ASSIGN", "BASE_SET",
 KINDS = ["K_IO", "K_TIMER", "K_SIG"]
 CTXN = {0: "idle", 1: "incb", 2: "xthread"}
 
-def _ob(op, kind="K_IO", st=1, ctx=0, **kw):
-    d = dict(name="%s_%s_st%d_%s" % (op.lower(), kind[2:].lower(), st, CTXN[ctx]), harness="C08_event_api.c", entry="harness_api",
+WHATS = ["timeout", "read", "write_closed_timeout", "signal", "read_persist", "read_et_finalize", "none"]
+def _ob(op, kind="K_IO", st=1, ctx=0, what=None, **kw):
+    d = dict(name="%s%s_%s_st%d_%s" % (op.lower(), "" if what is None else "_" + WHATS[what], kind[2:].lower(), st, CTXN[ctx]), harness="C08_event_api.c", entry="harness_api",
              sources=[], defines=["C08_OP=OP_" + op, "C08_KIND=" + kind, "C08_ST=%d" % st, "C08_CTX=%d" % ctx],
-             unwind=6, instrument=_pins(op), timeout=600, mem_gb=4, cbmc=["--object-bits", "10", "--no-standard-checks"],
+             unwind=6, unwindset=["evmap_io_foreach_fd.0:34", "evmap_signal_foreach_signal.0:34", "evmap_io_clear_.0:34", "evmap_signal_clear_.0:34"], instrument=_pins(op), timeout=600, mem_gb=4, cbmc=["--object-bits", "10", "--no-standard-checks"],
              desc="%s on a %s event (state %d), context %s: lock balance on every path, faults symbolic" % (op, kind, st, CTXN[ctx]))
+    if what is not None: d["defines"].append("C08_WHAT=%d" % what)
     d.update(kw)
     if _T: d["timeout"] = _T
     return d
 
 def obligations(tier):
+    if os.environ.get("C08_PROBE"):
+        return [_ob(*x.split(":")[:2], st=int(x.split(":")[2]), ctx=int(x.split(":")[3])) for x in os.environ["C08_PROBE"].split(",")]
     obs = []
     for op in OPS:
-        obs.append(_ob(op))
+        if op == "ONCE":
+            for w in range(7): obs.append(_ob(op, what=w))
+        elif op == "NEW_FREE":
+            for w in ((1, 3) if tier == "quick" else range(7)): obs.append(_ob(op, what=w))
+        else:
+            obs.append(_ob(op))
     return obs
